@@ -207,6 +207,32 @@ func (c *ctx) rangeSmallSection(r *lib.RNG, out chan<- batch, rcfg string) {
 				}
 			}
 		}
+		// --- keys offered as felts of 2^251 or more, exhaustively over the set: every key as the single
+		// element (first with and without the offset), every pair k_j < k_i as the range [k_i, k_j + 2^251]
+		// (felts increasing, paths decreasing), and every range lo..hi with its last key offset
+		for i := range kvs {
+			if !plusOK(kvs[len(kvs)-1].K) {
+				break // key + 2^251 would not be a felt
+			}
+			k := kvs[i].K
+			single := rp(k, k)
+			eval(&RangeClaim{Impl: "trie2", Kind: "single-element-key-plus-2^251", Trie: kvs, Root: rootHex, First: k, FirstPlus: true,
+				Keys: []string{k}, KeyPlus: []bool{true}, Values: []string{kvs[i].V}, Proof: single})
+			eval(&RangeClaim{Impl: "trie2", Kind: "single-element-key-plus-2^251-first-plain", Trie: kvs, Root: rootHex, First: k,
+				Keys: []string{k}, KeyPlus: []bool{true}, Values: []string{kvs[i].V}, Proof: single})
+			for jj := 0; jj < i; jj++ {
+				proof := rp(kvs[jj].K, k)
+				eval(&RangeClaim{Impl: "trie2", Kind: "keys-wrap-2^251", Trie: kvs, Root: rootHex, First: k,
+					Keys: []string{k, kvs[jj].K}, KeyPlus: []bool{false, true}, Values: []string{kvs[i].V, kvs[jj].V}, Proof: proof})
+				cl := &RangeClaim{Impl: "trie2", Kind: "last-key-plus-2^251", Trie: kvs, Root: rootHex, First: kvs[jj].K, Proof: proof}
+				for x := jj; x <= i; x++ {
+					cl.Keys = append(cl.Keys, kvs[x].K)
+					cl.Values = append(cl.Values, kvs[x].V)
+					cl.KeyPlus = append(cl.KeyPlus, x == i)
+				}
+				eval(cl)
+			}
+		}
 		if len(pending.checks) > 0 {
 			out <- pending
 		}
